@@ -63,7 +63,7 @@ class Sub:
 WM = ['default', 'nofallback', 'nodownload', 'forcefallback', 'nopromote']
 
 
-def ob_policy(with_versions):
+def ob_policy(with_versions, with_cache=True):
     def h():
         wm = WM[choose(len(WM), 'wrap_mode')]
         fff_name = decide(sym_bool('force_fallback_for_has_name')); fff_sub = decide(sym_bool('force_fallback_for_has_subproject'))
@@ -94,6 +94,8 @@ def ob_policy(with_versions):
         class Cache(dict):
             def put(self, k, v): self[k] = v
         interp.coredata.deps = {MachineChoice.HOST: Cache()}
+        # coredata.deps is persistent: an EARLIER configuration of this build directory may have found the dependency on the system
+        cached_prev = decide(sym_bool('coredata_cache_has_the_system_dependency_from_an_earlier_run')) if with_cache else False
         interp.build = types.SimpleNamespace(dependency_overrides={MachineChoice.HOST: {}})
         wr = types.SimpleNamespace(find_dep_provider=lambda n: ('sub', 'foo_dep') if provides else (None, None),
                                    get_varname=lambda s, n: 'foo_dep' if provides else None)
@@ -113,6 +115,8 @@ def ob_policy(with_versions):
                 if kwargs['required']: raise DependencyException('subproject failed')
         interp.do_subproject = do_subproject
         sysdep = mkdep('system', True, '9')
+        if cached_prev:
+            interp.coredata.deps[MachineChoice.HOST][dependencies.get_dep_identifier('foo', dict({'native': MachineChoice.HOST}, **({'version': list(wanted)} if wanted else {})))] = sysdep
 
         sys_ok = [sys_present]
 
@@ -163,7 +167,8 @@ def ob_policy(with_versions):
         if forced and has_fb:
             exp = sub_result
             check(calls['system'] == 0, 'the system is not consulted when fallback is forced')
-        elif sys_present and (not with_versions or decide(bt_any({'>=': 9 >= sym_int_of_str(wanted[0][len(vop):]), '<': 9 < sym_int_of_str(wanted[0][len(vop):]), '<=': 9 <= sym_int_of_str(wanted[0][len(vop):]),
+            check(res != 'system', '... nor is a system dependency remembered from an earlier configuration used')
+        elif (sys_present or cached_prev) and (not with_versions or decide(bt_any({'>=': 9 >= sym_int_of_str(wanted[0][len(vop):]), '<': 9 < sym_int_of_str(wanted[0][len(vop):]), '<=': 9 <= sym_int_of_str(wanted[0][len(vop):]),
                                                                    '!=': 9 != sym_int_of_str(wanted[0][len(vop):]), '==': 9 == sym_int_of_str(wanted[0][len(vop):]), '>': 9 > sym_int_of_str(wanted[0][len(vop):])}[vop]))):
             exp = 'system'
         elif has_fb and not nofb:
@@ -363,9 +368,9 @@ def ob_cleanup():
 
 
 def obligations(tier):
-    out = [Obligation('policy', ob_policy(False), dict(cells='wrap_mode x force_fallback_for(name,subproject) x required x allow_fallback x fallback kwarg (absent|[]|[sub]|[sub,var]) x wrap provides x system x subproject ok x override'),
+    out = [Obligation('policy', ob_policy(False), dict(cells='wrap_mode x force_fallback_for(name,subproject) x required x allow_fallback x fallback kwarg (absent|[]|[sub]|[sub,var]) x wrap provides x persistent dependency cache of an earlier run x system x subproject ok x override'),
                       labels=('system', 'subproject', 'notfound', 'error', 'arg-error'), max_paths=3000000),
-           Obligation('policy+versions', ob_policy(True), dict(cells='as policy', versions='wanted >= d1, subproject version d2, symbolic digits'),
+           Obligation('policy+versions', ob_policy(True, tier != 'quick'), dict(cells='as policy' + (' (quick: without the persistent-cache dimension)' if tier == 'quick' else ''), versions='wanted >= d1, subproject version d2, symbolic digits'),
                       labels=('system', 'subproject', 'notfound', 'error'), max_paths=5000000),
            Obligation('override', ob_override(), dict(override='found / not found, symbolic version vs symbolic constraint'), labels=('override', 'notfound', 'error')),
            Obligation('sources/source', ob_sources('source'), dict(kinds='url | url+fallback url | packagefiles', faults='existence, digests, download failures symbolic'), labels=('returned', 'refused')),
